@@ -555,6 +555,8 @@ def gate_check(pid, tier, seed, replay, variant, mode, gen, rule, props):
             outs = run_jobs([{"name": "replay", "behaviours": [lines], "driver": "self"}], sexe, "TraceSelfTest")
             collect(chk, outs, {"C17"}, marker="Mark")
         else:
+            if "variant=fipsnsp" in text:
+                exe = build.build_driver("gate", GATE_SRCS, variant="fipsnsp", wraps=gate_wraps())
             outs = run_jobs([{"name": "replay", "behaviours": [lines], "env": env}], exe, "TraceGate")
             collect(chk, outs, props, marker="Mark")
         chk.cov.update({"states": 1, "transitions": 1, "traces_validated_against_impl": 1, "samples": [replay]})
@@ -580,6 +582,21 @@ def gate_check(pid, tier, seed, replay, variant, mode, gen, rule, props):
         nb2, ne2 = concurrent_gate(chk)
         nb += nb2
         ne += ne2
+        # the FIPS gate must not depend on the parameter checks being compiled in: FIPS_MODE=y SAFE_PARAM=n build, valid arguments
+        # only (NULL arguments are the caller's problem there), every entry point in the failed / failing / passing states
+        exe2 = build.build_driver("gate", GATE_SRCS, variant="fipsnsp", wraps=gate_wraps())
+        b2 = []
+        for entry, sig, alg in entries:
+            v = " ".join(gen_gate.valid_vec(sig))
+            b2.append(["stinj 0 0", "st 1", "gate %s %s" % (entry, v)])
+            b2.append(["stinj 1 0", "st 2", "gate %s %s" % (entry, v), "gate %s %s" % (entry, v)])
+            b2.append(["stinj 0 0", "st 2", "gate %s %s" % (entry, v)])
+        j2 = [{"name": "gate-nsp-%d" % i, "behaviours": b2[i::6], "driver": "gate variant=fipsnsp", "env": env} for i in range(6)]
+        o2 = run_jobs(j2, exe2, "TraceGate")
+        nb3, ne3 = collect(chk, o2, props | {"SPEC"}, marker="Mark")
+        nb += nb3
+        ne += ne3
+        chk.cov["fips_without_safe_param_pass"] = {"behaviours": nb3, "events": ne3}
     _finish_traces(chk, jobs, outs, nb, ne, rule)
     chk.cov["entries"] = len(entries)
     chk.assumptions += ["argument signatures (one letter per parameter) are transcribed from the public headers into harness/drv_gate.c",
@@ -1212,6 +1229,9 @@ def check_c18(tier, seed, replay=None, selftest=False):
     dexe = build.build_driver("disp", DISP_SRCS)
     dcfgs = gen_disp.configs(collapse=True)
     dsel = dcfgs[::max(1, len(dcfgs) // (60 if tier == "quick" else 600))]
+    # plus the configurations in which the longest resolver paths run: everything present, and everything but one group-2 bit
+    full = [c for c in dcfgs if {"avx512f", "vaes", "vpclmulqdq", "gfni", "avx512_vbmi2", "x_hi16_zmm", "sha"} <= set(c)]
+    dsel = (full[:6] + [c for c in dcfgs if "avx512f" in c and "x_hi16_zmm" in c and "vaes" not in c][:3] + dsel)
     mix.append((dexe, "TraceDispatch", [{"name": "disp-c18", "behaviours": [[gen_disp.vcpu_cmd(c, i % 2 == 1), "bindall"] for i, c in enumerate(dsel)],
                                           "driver": "disp"}]))
     jobs, outs, nb, ne = run_mix(chk, mix, {"C18"})
